@@ -53,6 +53,22 @@ def main():
     # the unchanged tree + its build are shared between confirmations of the same /repo HEAD
     clean, mut = "/var/tmp/rw/confirm_clean_%s" % head, base + "_mut"
     rec = {"name": name}
+    import fcntl
+    os.makedirs("/var/tmp/rw", exist_ok=True)
+    lockf = open("/var/tmp/rw/.confirm_clean.lock", "w")
+    fcntl.flock(lockf, fcntl.LOCK_EX)      # one process at a time prepares/builds the shared clean tree
+    if not os.path.exists(os.path.join(clean, "build", ".ok")):
+        sh(["git", "-C", "/repo", "worktree", "remove", "--force", clean])
+        shutil.rmtree(clean, ignore_errors=True)
+        sh(["git", "-C", "/repo", "worktree", "prune"])
+        r = sh(["git", "-C", "/repo", "worktree", "add", "--detach", clean, "HEAD"])
+        if r.returncode != 0:
+            sys.exit("worktree: " + r.stderr)
+        b1, l1 = build(clean, clean + "/build")
+        if not b1:
+            sys.exit("clean build failed: " + l1[-1500:])
+        open(os.path.join(clean, "build", ".ok"), "w").write("ok")
+    fcntl.flock(lockf, fcntl.LOCK_UN)
     for t in (clean, mut):
         if t == clean and os.path.exists(os.path.join(clean, "build", ".ok")):
             continue
